@@ -1,131 +1,101 @@
 (* C34 proofs, part 3: from the per-call invariant to statements about whole histories
-   (traces of the model judged by the property's oracle of Model/Freelist.v). *)
+   (traces of the model judged by the property's oracle of Model/Freelist.v):
+   the freelist refines the bag specification, and free_count() is exact. *)
 From Coq Require Import ZArith List Bool Lia ZifyBool FMapPositive Permutation.
 From TV Require Import Lib.MachInt Gen.FreelistConsts Gen.Freelist Model.Freelist Proof.Freelist Proof.FreelistInv.
 Import ListNotations.
 Open Scope Z_scope.
 
 (* model state and oracle state describe the same moment *)
-Definition Inv (np : Z) (st : state) (o : ost) (ts : list trunk) (L : list Z) : Prop :=
-  Core np st (bag o) (nfree o) (z4 o) (z5 o) ts L /\ phd o = head st /\ pfc o = fc st.
-
-Lemma core_fc_le_nf : forall np st b nf a4 a5 ts L, Core np st b nf a4 a5 ts L -> fc st <= nf.
-Proof.
-  intros np st b nf a4 a5 ts L [_ (_ & _ & _ & Hnf) Hfc _ _]. subst nf. unfold all. rewrite zlen_app. lia.
-Qed.
-Lemma core_fc_nonneg : forall np st b nf a4 a5 ts L, Core np st b nf a4 a5 ts L -> 0 <= fc st.
-Proof.
-  intros np st b nf a4 a5 ts L [_ _ Hfc _ _]. pose proof (zlen_nonneg _ (flat ts)). lia.
-Qed.
+Definition Inv (np : Z) (st : state) (o : ost) (ts : list trunk) : Prop :=
+  Core np st (bag o) (nfree o) ts.
 
 Definition ost_run (o : ost) (tr : list ev) : ost := fold_left ost_step tr o.
 
-(* one call of a disciplined client that does not make allocate() read a dirty page 0 *)
-Lemma step_inv : forall np st o ts L op st' r,
-  np < 2 ^ 32 -> Inv np st o ts L -> step np (fuel_for np) st op = (st', r) ->
+(* one call of a disciplined client *)
+Lemma step_inv : forall np st o ts op st' r,
+  np < 2 ^ 32 -> Inv np st o ts -> step np st op = (st', r) ->
   let e := E op r (head st') (fc st') in
-  disc_ev np o e = true -> bad_deref o e = false ->
-  anomaly o e = false /\ pfc (ost_step o e) <= nfree (ost_step o e) /\
-  exists ts' L', Inv np st' (ost_step o e) ts' L' /\
-    match op, r with
-    | Alloc, OSome _ => etot ts' = etot ts - 1
-    | Alloc, ONone => etot ts = 0
-    | _, _ => True
-    end.
+  disc_ev np o e = true ->
+  anomaly o e = false /\ none_ok o e = true /\ fc st' = nfree (ost_step o e) /\
+  (exists ts', Inv np st' (ost_step o e) ts') /\
+  match op, r with
+  | Alloc, OSome _ => fc st' = fc st - 1
+  | Alloc, ONone => fc st = 0
+  | _, _ => True
+  end.
 Proof.
-  intros np st o ts L op st' r Hnp (HC & Hhd & Hfc) Hstep e Hdisc Hbad. subst e.
+  intros np st o ts op st' r Hnp HC Hstep e Hdisc. subst e. unfold Inv in *.
   destruct op as [p| |p i v]; cbn [step] in Hstep.
   - (* release *)
     cbn [disc_ev] in Hdisc.
-    destruct (release_core np st (bag o) (nfree o) (z4 o) (z5 o) ts L p Hnp HC) as (st2 & Hr & ts' & L' & HC'); [lia| |].
+    destruct (release_core np st (bag o) (nfree o) ts p Hnp HC) as (st2 & Hr & ts' & HC'); [lia| |].
     { destruct (bmem p (bag o)); [cbn in Hdisc; lia|reflexivity]. }
     rewrite Hr in Hstep. inversion Hstep; subst st2 r. clear Hstep.
-    cbn [anomaly ost_step pfc nfree]. split; [reflexivity|]. split.
-    + eapply core_fc_le_nf; eauto.
-    + exists ts', L'. split; [|exact I]. split; [exact HC'|]. cbn. split; reflexivity.
+    cbn [anomaly none_ok ost_step nfree bag].
+    split; [reflexivity|]. split; [reflexivity|]. split; [eapply core_fc_nf; eauto|]. split; [|exact I].
+    exists ts'. exact HC'.
   - (* allocate *)
-    destruct (alloc_core np ts L st (bag o) (nfree o) (z4 o) (z5 o) (fuel_for np) HC) as (st2 & r2 & Ha & Hpost).
-    { eapply core_fuel; eauto. }
-    { cbn [bad_deref] in Hbad. rewrite Hhd, Hfc in Hbad. pose proof (core_fc_nonneg _ _ _ _ _ _ _ _ HC).
-      destruct (Z.eqb_spec (head st) 0); [|right; left; assumption].
-      destruct (Z.ltb_spec 0 (fc st)); [|right; right; lia].
-      left. cbn [andb] in Hbad. apply negb_false_iff in Hbad. lia. }
+    destruct (alloc_core np ts st (bag o) (nfree o) HC) as (st2 & r2 & Ha & Hpost).
     rewrite Ha in Hstep. inversion Hstep; subst st2 r2. clear Hstep.
-    destruct Hpost as [(-> & He0 & Hf0 & L' & HC')|(x & -> & Hxb & ts' & L' & HC' & He')].
-    + cbn [anomaly ost_step pfc nfree]. split; [reflexivity|]. split.
-      * eapply core_fc_le_nf; eauto.
-      * exists [], L'. split; [|exact He0]. split; [exact HC'|]. cbn. split; reflexivity.
-    + cbn [anomaly ost_step pfc nfree]. rewrite Hxb. split; [reflexivity|]. split.
-      * eapply core_fc_le_nf; eauto.
-      * exists ts', L'. split; [|exact He']. split; [exact HC'|]. cbn. split; reflexivity.
+    pose proof (core_fc_nf _ _ _ _ _ HC) as Hfn.
+    destruct Hpost as [(-> & Hn0 & ->)|(x & -> & Hxb & ts' & HC')].
+    + cbn [anomaly none_ok ost_step].
+      split; [reflexivity|]. split; [lia|]. split; [lia|]. split; [|lia].
+      exists ts. exact HC.
+    + pose proof (core_fc_nf _ _ _ _ _ HC') as Hfn'.
+      cbn [anomaly none_ok ost_step nfree bag]. rewrite Hxb.
+      split; [reflexivity|]. split; [reflexivity|]. split; [lia|]. split; [|lia].
+      exists ts'. exact HC'.
   - (* client write *)
     cbn [disc_ev] in Hdisc.
-    destruct (poke_core np st (bag o) (nfree o) (z4 o) (z5 o) ts L p i v HC) as (st2 & Hr & HC' & Hh' & Hf'); [lia|lia| |].
+    destruct (poke_core np st (bag o) (nfree o) ts p i v HC) as (st2 & Hr & HC'); [lia|lia| |].
     { destruct (bmem p (bag o)); [cbn in Hdisc; lia|reflexivity]. }
     rewrite Hr in Hstep. inversion Hstep; subst st2 r. clear Hstep.
-    cbn [anomaly ost_step pfc nfree]. split; [reflexivity|]. split.
-    + rewrite Hf'. eapply core_fc_le_nf; eauto.
-    + exists ts, L. split; [|exact I]. split; [exact HC'|]. cbn. split; reflexivity.
+    cbn [anomaly none_ok ost_step].
+    split; [reflexivity|]. split; [reflexivity|]. split; [eapply core_fc_nf; eauto|]. split; [|exact I].
+    exists ts. exact HC'.
 Qed.
 
 (* ------------------------------------------------------------------ whole histories *)
-Lemma run_safe_until_deref : forall np, np < 2 ^ 32 -> forall ops st o ts L,
-  Inv np st o ts L ->
-  disciplined_from np o (run_from np (fuel_for np) st ops) = true ->
-  safe_until_deref_from o (run_from np (fuel_for np) st ops) = true.
+Lemma run_full : forall np, np < 2 ^ 32 -> forall ops st o ts,
+  Inv np st o ts ->
+  disciplined_from np o (run_from np st ops) = true ->
+  safe_from o (run_from np st ops) = true /\
+  complete_from o (run_from np st ops) = true /\
+  reported_eq_spec_from o (run_from np st ops) = true /\
+  snd (count_pass Z.eqb (run_from np st ops)) = true /\
+  (forall k, drain_count (run_from np st ops) = Some k -> k = fc st) /\
+  exists ts', Inv np (final_from np st ops) (ost_run o (run_from np st ops)) ts'.
 Proof.
-  intros np Hnp ops. induction ops as [|op t IH]; intros st o ts L HI Hd; [reflexivity|].
-  cbn [run_from] in *. destruct (step np (fuel_for np) st op) as [st' r] eqn:Es.
-  cbn [disciplined_from safe_until_deref_from] in *. apply andb_prop in Hd. destruct Hd as [Hd1 Hd2].
-  destruct (bad_deref o (E op r (head st') (fc st'))) eqn:Eb; [reflexivity|]. cbn [orb].
-  destruct (step_inv np st o ts L op st' r Hnp HI Es Hd1 Eb) as (Han & _ & ts' & L' & HI' & _).
-  rewrite Han. cbn [negb andb]. eapply IH; eauto.
-Qed.
-
-Lemma run_safe : forall np, np < 2 ^ 32 -> forall ops st o ts L,
-  Inv np st o ts L ->
-  disciplined_from np o (run_from np (fuel_for np) st ops) = true ->
-  no_bad_deref_from o (run_from np (fuel_for np) st ops) = true ->
-  safe_from o (run_from np (fuel_for np) st ops) = true /\
-  reported_le_spec_from o (run_from np (fuel_for np) st ops) = true /\
-  exists ts' L', Inv np (final_from np (fuel_for np) st ops) (ost_run o (run_from np (fuel_for np) st ops)) ts' L'.
-Proof.
-  intros np Hnp ops. induction ops as [|op t IH]; intros st o ts L HI Hd Hb.
-  - cbn. repeat split. exists ts, L. exact HI.
-  - cbn [run_from final_from] in *. destruct (step np (fuel_for np) st op) as [st' r] eqn:Es.
-    cbn [disciplined_from no_bad_deref_from safe_from reported_le_spec_from ost_run fold_left fst] in *.
-    apply andb_prop in Hd. destruct Hd as [Hd1 Hd2]. apply andb_prop in Hb. destruct Hb as [Hb1 Hb2].
-    apply negb_true_iff in Hb1.
-    destruct (step_inv np st o ts L op st' r Hnp HI Es Hd1 Hb1) as (Han & Hle & ts' & L' & HI' & _).
-    destruct (IH st' _ ts' L' HI' Hd2 Hb2) as (IH1 & IH2 & IH3).
-    rewrite Han, IH1, IH2. cbn [negb andb]. split; [reflexivity|]. split; [|exact IH3].
-    apply andb_true_intro. split; [lia|reflexivity].
-Qed.
-
-(* what a run of successful allocations up to the first None returns = the entries of the chain *)
-Lemma drain_exact : forall np, np < 2 ^ 32 -> forall more st o ts L k,
-  Inv np st o ts L ->
-  no_bad_deref_from o (run_from np (fuel_for np) st more) = true ->
-  drain_count (run_from np (fuel_for np) st more) = Some k -> k = etot ts.
-Proof.
-  intros np Hnp more. induction more as [|op t IH]; intros st o ts L k HI Hb Hk; [discriminate|].
-  cbn [run_from] in *. destruct (step np (fuel_for np) st op) as [st' r] eqn:Es.
-  cbn [no_bad_deref_from drain_count] in *. apply andb_prop in Hb. destruct Hb as [Hb1 Hb2].
-  apply negb_true_iff in Hb1.
-  destruct op as [p| |p i v]; try (destruct r; discriminate).
-  destruct (step_inv np st o ts L Alloc st' r Hnp HI Es eq_refl Hb1) as (_ & _ & ts' & L' & HI' & He).
-  destruct r; try discriminate.
-  - destruct (drain_count (run_from np (fuel_for np) st' t)) as [k'|] eqn:Ek; [|discriminate].
-    inversion Hk; subst k. rewrite (IH st' _ ts' L' k' HI' Hb2 Ek). lia.
-  - inversion Hk; subst k. lia.
+  intros np Hnp ops. induction ops as [|op t IH]; intros st o ts HI Hd.
+  - cbn. repeat split; try discriminate. exists ts. exact HI.
+  - cbn [run_from final_from] in *. destruct (step np st op) as [st' r] eqn:Es.
+    cbn [disciplined_from safe_from complete_from reported_eq_spec_from ost_run fold_left fst] in *.
+    apply andb_prop in Hd. destruct Hd as [Hd1 Hd2].
+    destruct (step_inv np st o ts op st' r Hnp HI Es Hd1) as (Han & Hno & Heq & (ts' & HI') & Hfc).
+    destruct (IH st' _ ts' HI' Hd2) as (IH1 & IH2 & IH3 & IH4 & IH5 & IH6).
+    rewrite Han, Hno, IH1, IH2, IH3. cbn [negb andb].
+    split; [reflexivity|]. split; [reflexivity|]. split; [apply andb_true_intro; split; [lia|reflexivity]|].
+    cbn [count_pass drain_count].
+    pose proof (count_pass_fst Z.eqb (run_from np st' t)) as Hdc.
+    destruct (count_pass Z.eqb (run_from np st' t)) as [dt okt]. cbn [fst snd] in *. subst dt okt.
+    split; [|split; [|exact IH6]].
+    + cbn [snd andb]. destruct (drain_count (run_from np st' t)) as [k|] eqn:Ek; [|reflexivity].
+      specialize (IH5 k eq_refl). lia.
+    + intros k Hk. destruct op as [p| |p i v]; try (destruct r; discriminate).
+      destruct r; try discriminate.
+      * destruct (drain_count (run_from np st' t)) as [k'|] eqn:Ek; [|discriminate].
+        inversion Hk; subst k. specialize (IH5 k' eq_refl). lia.
+      * inversion Hk; subst k. lia.
 Qed.
 
 (* ------------------------------------------------------------------ traces of appended histories *)
-Lemma run_from_app : forall np fuel a b st,
-  run_from np fuel st (a ++ b) = run_from np fuel st a ++ run_from np fuel (final_from np fuel st a) b.
+Lemma run_from_app : forall np a b st,
+  run_from np st (a ++ b) = run_from np st a ++ run_from np (final_from np st a) b.
 Proof.
-  intros np fuel a. induction a as [|op t IH]; intros b st; [reflexivity|].
-  cbn [app run_from final_from]. destruct (step np fuel st op) as [st' r]. cbn [fst app]. rewrite IH. reflexivity.
+  intros np a. induction a as [|op t IH]; intros b st; [reflexivity|].
+  cbn [app run_from final_from]. destruct (step np st op) as [st' r]. cbn [fst app]. rewrite IH. reflexivity.
 Qed.
 Lemma disciplined_from_app : forall np t1 t2 o,
   disciplined_from np o (t1 ++ t2) = disciplined_from np o t1 && disciplined_from np (ost_run o t1) t2.
@@ -133,80 +103,52 @@ Proof.
   intros np t1. induction t1 as [|e t IH]; intros t2 o; [reflexivity|].
   cbn [app disciplined_from ost_run fold_left]. rewrite IH. unfold ost_run. rewrite andb_assoc. reflexivity.
 Qed.
-Lemma no_bad_deref_from_app : forall t1 t2 o,
-  no_bad_deref_from o (t1 ++ t2) = no_bad_deref_from o t1 && no_bad_deref_from (ost_run o t1) t2.
-Proof.
-  intros t1. induction t1 as [|e t IH]; intros t2 o; [reflexivity|].
-  cbn [app no_bad_deref_from ost_run fold_left]. rewrite IH. unfold ost_run. rewrite andb_assoc. reflexivity.
-Qed.
 
-Lemma inv_new : forall np, Inv np st_new ost_new [] [].
-Proof. intro np. split; [apply core_new|]. split; reflexivity. Qed.
+Lemma inv_new : forall np, Inv np st_new ost_new [].
+Proof. intro np. apply core_new. Qed.
 
 (* ================================================================== the theorems pinned in Props/C34.v *)
-Theorem alloc_safety_l : forall np ops, np < 2 ^ 32 ->
-  disciplined np (run np ops) = true -> no_bad_deref (run np ops) = true ->
-  safe (run np ops) = true.
+(* DESIGN.md C34 `freelist_refines_bag`: for every disciplined history, allocate() returns a member
+   of the abstract free bag (released, not handed out since) or None exactly when the bag is empty,
+   no call fails, and free_count() equals the size of the bag after every call *)
+Theorem freelist_refines_bag_l : forall np ops, np < 2 ^ 32 ->
+  disciplined np (run np ops) = true -> refines_bag (run np ops) = true.
 Proof.
-  intros np ops Hnp Hd Hb. unfold safe, run in *.
-  destruct (run_safe np Hnp ops st_new ost_new [] [] (inv_new np) Hd Hb) as (H & _). exact H.
+  intros np ops Hnp Hd. unfold refines_bag, safe, complete, reported_eq_spec, run in *.
+  destruct (run_full np Hnp ops st_new ost_new [] (inv_new np) Hd) as (H1 & H2 & H3 & _).
+  rewrite H1, H2, H3. reflexivity.
 Qed.
 
-Theorem safe_until_deref_l : forall np ops, np < 2 ^ 32 ->
-  disciplined np (run np ops) = true -> safe_until_deref (run np ops) = true.
+Theorem count_exact_l : forall np ops, np < 2 ^ 32 ->
+  disciplined np (run np ops) = true -> count_exact (run np ops) = true.
 Proof.
-  intros np ops Hnp Hd. unfold safe_until_deref, run in *.
-  eapply run_safe_until_deref; eauto. apply inv_new.
+  intros np ops Hnp Hd. unfold count_exact, count_check, run in *.
+  destruct (run_full np Hnp ops st_new ost_new [] (inv_new np) Hd) as (_ & _ & _ & H4 & H5 & _).
+  pose proof (count_pass_fst Z.eqb (run_from np st_new ops)) as Hdc.
+  destruct (count_pass Z.eqb (run_from np st_new ops)) as [d ok]. cbn [fst snd] in *. subst d ok.
+  cbn [andb]. destruct (drain_count _) as [k|] eqn:Ek; [|reflexivity].
+  specialize (H5 k eq_refl). cbn [fc st_new] in H5. lia.
 Qed.
 
-Theorem reported_le_spec_l : forall np ops, np < 2 ^ 32 ->
-  disciplined np (run np ops) = true -> no_bad_deref (run np ops) = true ->
-  reported_le_spec (run np ops) = true.
+(* the three clauses of the property, every history (an undisciplined client is promised nothing) *)
+Theorem property_holds_l : forall np ops, np < 2 ^ 32 -> property_ok np (run np ops) = true.
 Proof.
-  intros np ops Hnp Hd Hb. unfold reported_le_spec, run in *.
-  destruct (run_safe np Hnp ops st_new ost_new [] [] (inv_new np) Hd Hb) as (_ & H & _). exact H.
+  intros np ops Hnp. unfold property_ok.
+  destruct (disciplined np (run np ops)) eqn:Ed; [|reflexivity]. cbn [negb orb].
+  pose proof (freelist_refines_bag_l np ops Hnp Ed) as Hr. unfold refines_bag in Hr.
+  apply andb_prop in Hr. destruct Hr as [Hr _]. apply andb_prop in Hr. destruct Hr as [Hs _].
+  rewrite Hs, (count_exact_l np ops Hnp Ed). reflexivity.
 Qed.
 
-Theorem overcount_l : forall np ops more k, np < 2 ^ 32 ->
-  disciplined np (run np (ops ++ more)) = true -> no_bad_deref (run np (ops ++ more)) = true ->
-  drain_count (run_from np (fuel_for np) (final np ops) more) = Some k ->
-  head (final np ops) <> 0 ->
-  k < fc (final np ops).
+(* in any reachable state: draining returns exactly free_count() pages *)
+Theorem drain_returns_free_count_l : forall np ops more k, np < 2 ^ 32 ->
+  disciplined np (run np (ops ++ more)) = true ->
+  drain_count (run_from np (final np ops) more) = Some k -> k = fc (final np ops).
 Proof.
-  intros np ops more k Hnp Hd Hb Hk Hh. unfold disciplined, no_bad_deref, run, final in *.
-  rewrite run_from_app in Hd, Hb. rewrite disciplined_from_app in Hd. rewrite no_bad_deref_from_app in Hb.
-  apply andb_prop in Hd. destruct Hd as [Hd1 Hd2]. apply andb_prop in Hb. destruct Hb as [Hb1 Hb2].
-  destruct (run_safe np Hnp ops st_new ost_new [] [] (inv_new np) Hd1 Hb1) as (_ & _ & ts & L & HI).
-  pose proof (drain_exact np Hnp more _ _ ts L k HI Hb2 Hk) as ->.
-  destruct HI as ([Hc _ Hfc _ _] & _ & _).
-  destruct ts as [|[t s] rest]; [cbn [chain] in Hc; contradiction|].
-  rewrite zlen_flat in Hfc. rewrite zlen_cons in Hfc. pose proof (zlen_nonneg _ rest). lia.
+  intros np ops more k Hnp Hd Hk. unfold disciplined, run, final in *.
+  rewrite run_from_app in Hd. rewrite disciplined_from_app in Hd.
+  apply andb_prop in Hd. destruct Hd as [Hd1 Hd2].
+  destruct (run_full np Hnp ops st_new ost_new [] (inv_new np) Hd1) as (_ & _ & _ & _ & _ & ts & HI).
+  destruct (run_full np Hnp more _ _ ts HI Hd2) as (_ & _ & _ & _ & H5 & _).
+  apply H5. exact Hk.
 Qed.
-
-(* whatever the oracle cannot accept on a model trace falls into one of the two recorded classes *)
-Theorem known_classes_cover_l : forall np ops, np < 2 ^ 32 ->
-  known_class_tr np (run np ops) = 0 -> property_ok np (run np ops) = true.
-Proof.
-  intros np ops Hnp H. unfold known_class_tr in H.
-  destruct (property_ok np (run np ops)) eqn:Ep; [reflexivity|exfalso].
-  unfold property_ok in Ep. apply orb_false_elim in Ep. destruct Ep as [Ed Es].
-  apply negb_false_iff in Ed.
-  destruct (safe (run np ops)) eqn:Esafe; cbn [negb] in H.
-  - rewrite count_not_under_l in H. discriminate.
-  - rewrite (safe_until_deref_l np ops Hnp Ed) in H. discriminate.
-Qed.
-
-(* ------------------------------------------------------------------ the code does NOT satisfy the property *)
-(* release(3); allocate(): free_count() = 1 after the release, yet nothing can be allocated *)
-Theorem free_count_exact_refuted_l :
-  exists np ops, disciplined np (run np ops) = true /\ no_bad_deref (run np ops) = true /\
-                 safe (run np ops) = true /\ count_exact (run np ops) = false.
-Proof. exists 8, [Rel 3; Alloc]. vm_compute. repeat split. Qed.
-
-(* page 0 holds client data where a trunk header would be; after release(3); release(4); allocate()
-   the state is head_page = 0, free_count = 1 and the next allocate() hands out page 7, never released *)
-Theorem page0_deref_refuted_l :
-  exists np ops, disciplined np (run np ops) = true /\ safe (run np ops) = false /\
-                 run np ops = [E (Poke 0 5 1) OOk 0 0; E (Poke 0 6 7) OOk 0 0; E (Rel 3) OOk 3 1;
-                               E (Rel 4) OOk 3 2; E Alloc (OSome 4) 0 1; E Alloc (OSome 7) 0 0].
-Proof. exists 8, [Poke 0 5 1; Poke 0 6 7; Rel 3; Rel 4; Alloc; Alloc]. vm_compute. repeat split. Qed.
